@@ -3734,9 +3734,9 @@ class AllConnGraph(nx.DiGraph):
                            f"{np.squeeze(chain[-1]).shape} of the destination")
             else:
                 try:
-                    arr[:] = val
+                    arr[...] = val      # (also valid for a 0-d array, unlike arr[:])
                 except ValueError:
-                    arr[:] = val.reshape(arr.shape)
+                    arr[...] = val.reshape(arr.shape)
                 return
         except Exception as err:
             msg = str(err)
